@@ -31,6 +31,14 @@ NOTES = [
     "nothing else is sampled by the histories that import helper.py",
     "student code that itself calls sys.settrace is outside the model (not generated)",
     "timeouts (threaded execution, _execute_with_timeout) are C14's and not modelled",
+    "_stop_mocking is ONE primitive step of the model (its effect is the probed MockProbe): the order of the "
+    "statements inside it, and a failure of pedal's own bookkeeping between them (storing the captured output: "
+    "Sandbox.append_output / _read_captured raising, e.g. MemoryError on a huge output), are outside the model. "
+    "That case is a SEARCH-ONLY stream: a failure is injected into each of those steps for every way an execution "
+    "ends x every tracer style x run/call/import, judged by the snapshot oracle of the statement (the failure may "
+    "propagate; the borrowed globals and both stacks must be as before)",
+    "sizes (inputs consumed, output printed, traceback depth, message / argument / source length) and the report's "
+    "formatter are not in the model; sampled by the size sweep shared with C04 (sandboxexec_sizes.py)",
 ]
 
 
